@@ -145,4 +145,7 @@ theorem checkMagic_iff (h : Header) : Header.checkMagicNumber h = true ↔ h.b0 
 example : C.CompressType_Gzip < 8#8 ∧ C.MessageStatusType_Error < 4#8 ∧ C.SerializeType_Thrift < 16#8
     ∧ C.MessageType_Response < 2#8 := by decide
 
+/-- the tie: every accessor and constant above was translated from the current source this run -/
+theorem tie_header : Gen.headerTieOk = true := by decide
+
 end Rpcx.Props.C01
